@@ -305,6 +305,7 @@ class Program:
             "sigma": self.sigma,
             "k": self.k,
             "inputs": self.inputs,
+            "guides": [list(g) for g in getattr(self, "guides", [])],
             "env": [{"n": n, "re": re} for n, re, _ in self.env],
             "bi": getattr(self, "bi", {"none": []}),
             "sets": sets,
@@ -402,6 +403,7 @@ class Program:
             out.append("    fn sw(i: i32) -> %sRule { match i { %s _ => unreachable!() } }" % (name, arms))
         out.append("    impl<'input, I: Iterator<Item = char> + Clone> Lx for %s<'input, I> {" % name)
         out.append("        fn user_state(&mut self) -> St { self.0.state().clone() }")
+        out.append("        fn regs(&self) -> (usize, usize, bool) { (self.0.__state, self.0.__initial_state, self.0.__done) }")
         out.append("    }")
         out.append("    pub fn run(req: &Req) {")
         out.append("        match req.ctor {")
